@@ -17,6 +17,9 @@ Op descriptors (JSON-able lists), the unit of generation and replay:
   ["delb", bid]                                             mol.del_bond(<bond object bid>)
   ["rmsub", ref, ref, label|None]                           mol.remove_substituent(ref, ref, ap_label=..)
   ["addh", [atom ids] | None]                               mol.add_implicit_hydrogens(*atoms)
+  ["mkview", [refs], "sub"|"cls"|"heavy"]                   mol.substructure(refs) | Substructure(mol, refs) | mol.heavy   (a view that is KEPT)
+  ["vread", k]                                              views[k].coords        (the k-th view made so far, whatever happened to the molecule since)
+  ["vwrite", k, "assign"|"translate"|"scale"|"transform", seed]   views[k].coords = X | .translate(v) | .scale(f) | .transform(P)
   ref = "@<atomid>" | "#<int>" | "L<label string>" | "E<Z>"
   end = "<known atom id>" | ["e7", elem, label|None] (fresh free atom) | ["e7", elem, label|None, "stolen"] (atom of another molecule)
 """
@@ -45,6 +48,8 @@ class Runner:
         self.start = start
         self.cls = ml.Molecule if kind == "m" else ml.Structure
         self.coord_codes = {("nan", "nan", "nan"): 0}
+        self.code_vals = {0: (float("nan"),) * 3}
+        self.views = []                       # [(Substructure, [atom objects])]
         self.charge_codes = {_bits(0.0): 0}
         self.label_codes: dict[str, int] = {}
         self.atom_ids: dict[int, str] = {}   # id(obj) -> "e3" / "o5"
@@ -109,6 +114,7 @@ class Runner:
         key = tuple(_bits(x) for x in row)
         if key not in self.coord_codes:
             self.coord_codes[key] = len(self.coord_codes)
+            self.code_vals[self.coord_codes[key]] = tuple(float(x) for x in row)
         return self.coord_codes[key]
 
     def charge_code(self, q) -> int:
@@ -196,6 +202,7 @@ class Runner:
         bonds_before = list(m.bonds)
         nxt = self.next
         viol: list[tuple[str, str]] = []
+        self.extra = None
         out = "ok"
         token = None
         adopted = []
@@ -323,6 +330,63 @@ class Runner:
                                     hs.append(f"{self.atom_ids.get(id(partner), 'e999999')}:{cc}")
                             self.next += 2 * len(new_atoms)
                             token = "addh " + (",".join(hs) or "-")
+                    elif kind == "mkview":
+                        refs, how = op[1], op[2]
+                        if how == "heavy":
+                            refs = ["@" + self.atom_ids[id(a)] for a in m.atoms if int(a.element) != 1]
+                        token = "mkview " + (",".join(self.ref_tok(r) for r in refs) or "-")
+                        self.extra = "none"
+                        if how == "heavy":
+                            v = m.heavy
+                        elif how == "cls":
+                            v = ml.Substructure(m, [self.ref_py(r) for r in refs])
+                        else:
+                            v = m.substructure([self.ref_py(r) for r in refs])
+                        self.views.append((v, list(v.atoms)))
+                        self.extra = ",".join(self.atom_ids.get(id(a), "?") for a in v.atoms)
+                    elif kind == "vread":
+                        v, vatoms = self.views[op[1]]
+                        token = "vread " + (",".join(self.atom_ids[id(a)] for a in vatoms) or "-")
+                        self.extra = "none"
+                        rows = np.asarray(v.coords)
+                        self.extra = ",".join(str(self.coord_code(r)) for r in rows)
+                        # the property itself: the view shows the rows of its own atoms, by identity
+                        want = [self.given.get(id(a), (None,))[0] for a in vatoms]
+                        got = [self.coord_code(r) for r in rows]
+                        if len(got) != len(want) or any(w is not None and g != w for g, w in zip(got, want)):
+                            viol.append(("C05:view-misaligned", f"a Substructure made {len(self.views) - 1 - op[1]} views ago reads rows that are not those of its own atoms"))
+                    elif kind == "vwrite":
+                        v, vatoms = self.views[op[1]]
+                        mode, sd = op[2], op[3]
+                        cur = [self.code_vals.get(self.given.get(id(a), (0,))[0] or 0, (0.0, 0.0, 0.0)) for a in vatoms]
+                        cur = np.array(cur, dtype=float).reshape(len(vatoms), 3)
+                        if mode == "assign":
+                            new = np.array([[1000.0 + sd + k, 0.25 * k, -float(sd)] for k in range(len(vatoms))]).reshape(len(vatoms), 3)
+                        elif mode == "translate":
+                            vec = np.array([float(sd % 7) + 1.0, 0.5, -2.0])
+                            new = cur + vec
+                        elif mode == "scale":
+                            new = cur * 2.0
+                        else:
+                            P = np.array([[0.0, 1.0, 0.0], [0.0, 0.0, 1.0], [1.0, 0.0, 0.0]])
+                            new = cur @ P
+                        # expectation by identity: with an atom listed twice the last row written wins
+                        newcode = {}
+                        for a, r in zip(vatoms, new):
+                            newcode[id(a)] = self.coord_code(r)
+                        token = ("vwrite " + (",".join(self.atom_ids[id(a)] for a in vatoms) or "-") + " " +
+                                 (",".join(str(self.coord_code(r)) for r in new) or "-"))
+                        if mode == "assign":
+                            v.coords = new
+                        elif mode == "translate":
+                            v.translate(vec)
+                        elif mode == "scale":
+                            v.scale(2.0)
+                        else:
+                            v.transform(P)
+                        for a in vatoms:
+                            if id(a) in self.given:
+                                self.given[id(a)] = (newcode[id(a)], self.given[id(a)][1])
                     else:
                         raise ValueError(f"unknown op {op}")
                 finally:
@@ -335,6 +399,15 @@ class Runner:
             for z in adopted:
                 self.given[id(z)] = (0, 0)
         snap = self.snapshot()
+        if self.extra is not None:
+            snap["X"] = self.extra
+        if kind in ("vread", "vwrite"):
+            # a view can be used exactly when all the atoms it holds are still in the molecule
+            alive = all(any(a is x for x in atoms_before) for a in self.views[op[1]][1])
+            if alive and out == "err":
+                viol.append(("C05:view-unusable", f"{kind} through a Substructure whose atoms are all in the molecule raised {self.err_type}"))
+            if not alive and out == "ok":
+                viol.append(("C05:view-of-deleted-atom", f"{kind} through a Substructure holding a deleted atom did not raise"))
         viol += self.oracle(op, out, atoms_before, bonds_before)
         return token, out, snap, viol
 
